@@ -2337,6 +2337,9 @@ def verify_hyperparameters(lattice_sizes,
   Raises:
     ValueError: If something is inconsistent.
   """
+  if not lattice_sizes:
+    raise ValueError("'lattice_sizes' must contain at least one dimension. "
+                     "Given: %s" % (lattice_sizes,))
   for size in lattice_sizes:
     if size < 2:
       raise ValueError("All lattice sizes must be at least 2. Given: %s" %
